@@ -254,7 +254,7 @@ def run(ctx, selftest=False):
         ctx.count()
     ctx.sample(traces[0]); ctx.sample(traces[-1])
     verdicts = ctx.validate("RVDataTrace", traces)
-    ctx.judge(traces, verdicts)
+    ctx.judge(traces, verdicts, families=("C15.",))
     if selftest or not quick:
         _selftest(ctx, traces)
 
